@@ -22,13 +22,17 @@ MANIFEST = {
             "notifications, Echo challenges, save watermark, crashes + restarts): own_piv_strictly_increasing / "
             "own_nonce_never_reused (the Partial IVs used with the endpoint's own Sender ID never repeat, all histories, all "
             "configurations), response_nonce_is_peers (what goes out without Partial IV uses a request nonce of the peer, never an "
-            "own one). The request-nonce half of nonce reuse is OBSERVED, not proved over histories: the (key, nonce) pair really handed to the AEAD "
+            "own one), request_nonce_used_at_most_once / nonce_never_reused (per life of the process, no hypothesis on the application: a "
+            "response re-uses the nonce of a request at most once per accepted request; all nonces handed to the AEAD are pairwise "
+            "distinct), forged_b2_response_no_trace (Appendix B.2 client: a response that does not verify leaves b_2_step and the ID "
+            "Context untouched) and forged_b2_request_no_trace (server: a request that does not verify leaves b_2_step, oscore_r2 "
+            "and the set of security contexts untouched). Also OBSERVED on the implementation alone: the (key, nonce) pair really handed to the AEAD "
             "(--wrap=cose_encrypt0_encrypt) for every request, response and notification an endpoint protects while requests, Observe "
             "registrations and forged requests arrive must be pairwise distinct and, without Partial IV, be the nonce of an accepted "
             "request (step theorems only: notification_fresh_piv, observe_response_fresh_piv, forged_request_no_association).",
     "note": "Trusted: Lean kernel (+ propext, Classical.choice, Quot.sound), harness/replay.c, generators and the Python monitor, the "
             "hand transcription M (checked against the compiled code on the cases run only). The AEAD is an oracle (authentic / forged). "
-            "piv_never_reused assumes fewer than 2^63 operations (uint64 counter). Nine defects of the pinned tree were fixed "
+            "piv_never_reused assumes fewer than 2^63 operations (uint64 counter). Fourteen defects of the pinned tree were fixed "
             "(KNOWN_FINDINGS.txt); M models the fixed code. 'At most once' is claimed for requests (the property text); replays of "
             "responses are only rejected once the window is initialised (SPEC DECISION D15f).",
     "design_ref": "DESIGN.md §4 C15, design/C15.md",
@@ -42,7 +46,10 @@ REQUIRED_THEOREMS = ["accept_at_most_once", "recorded_at_most_once", "forged_nev
                      "short_ciphertext_never_accepted", "short_ciphertext_no_trace", "accept_at_most_once_dgram",
                      "notification_fresh_piv", "observe_response_fresh_piv", "forged_request_no_association",
                      "client_association_never_responds", "own_piv_strictly_increasing", "own_nonce_never_reused",
-                     "response_nonce_is_peers", "accept_at_most_once_across_restarts", "nothing_below_echo_request"]
+                     "response_nonce_is_peers", "accept_at_most_once_across_restarts", "nothing_below_echo_request",
+                     "request_nonce_used_at_most_once", "request_nonce_used_at_most_once_per_life", "nonce_never_reused",
+                     "forged_b2_response_no_trace", "forged_b2_history_no_trace", "forged_b2_request_no_trace",
+                     "forged_b2_requests_no_trace"]
 RULE = ("recipient: histories of <= 30 protected messages delivered through coap_oscore_decrypt_pdu to ONE fresh recipient context: "
         "requests (authentic with/without/with wrong Echo, forged with any claimed Partial IV) and, interleaved, responses to an "
         "Observe registration of that endpoint (authentic notifications carrying the peer's sequence number as Partial IV, forged "
@@ -60,6 +67,9 @@ RULE = ("recipient: histories of <= 30 protected messages delivered through coap
         "whole sender side (endp): <= 26 ops over requests of a conforming peer (with / without / stale Echo, re-delivered), forged "
         "requests, own requests / Observe registrations / deregistrations with tokens from the same 1..4 tokens, responses, "
         "crashes + restarts (ssn_freq 0..2^32-1, start values next to 2^40-1), all sequences of length <= 3 over 11 symbols; "
+        "Appendix B.2 client response path (b2c): responses that do not verify with every form of kid context field (absent, empty, "
+        "not CBOR, 0..23 bytes, the current ID Context), all sequences of length <= 3 over 7 forms + random lines; "
+        "Appendix B.2 server request path (b2s): requests that do not verify, kid context 0..23 bytes, before and during an exchange; "
         "the fixed corpus. "
         "non-trivial = distinct history in which at least one message was accepted / one PIV was sent")
 TRUSTED_BASE = ["Lean 4.33 kernel; axioms allowed: propext, Classical.choice, Quot.sound (audited per theorem each run)",
@@ -318,15 +328,14 @@ def gen_endp(rng, maxlen=26):
     sequence number, tokens re-used, with / without / with a stale Echo value, re-delivered inside one life of the
     endpoint), forged requests, the endpoint's own requests — their tokens drawn from the SAME small set as those of the
     requests it receives —, responses (without Observe / notifications / OSCORE_SEND_PARTIAL_IV), the save callback
-    (ssn_freq 0..100), crashes and restarts from the stored value, sequence numbers next to 2^40-1.  The application
-    never answers a token whose only request was dropped for a stale Echo value (it was never given that request)."""
+    (ssn_freq 0..100), crashes and restarts from the stored value, sequence numbers next to 2^40-1.  Responses go out for
+    ANY token, also for one whose only request was caught by the Appendix B.1.2 trap (wrong Echo value, challenge that
+    could not be protected: such a request must leave no association — round R15c — so these are `err`)."""
     w = rng.choice([32, 32, rng.randint(1, 63), 64])
     b12 = rng.choice([0, 1, 1])
     f = rng.choice([1, 1, 2, 3, 5, 9, 0, 100, 2 ** 32 - 1])
     near = rng.random() < 0.12
     start = SEQ_LIMIT - rng.randint(0, 6) if near else rng.choice([0, 0, 0, 1, rng.randint(0, 50)])
-    if near:
-        b12 = 0                  # a challenge that cannot be protected leaves the association of an unverified request
     ntok = rng.choice([1, 2, 2, 3, 4])
     seq = rng.choice([0, 0, 1, 7, rng.randint(0, 300), 2 ** 24 - 2, SEQ_LIMIT - 40])
     synced = not b12
@@ -340,10 +349,6 @@ def gen_endp(rng, maxlen=26):
             ops.append("%s%d.%d" % (k, t, seq))
             if k in "eE":
                 synced = True
-            if k == "w" and not synced:
-                dirty.add(t)
-            elif synced:
-                dirty.discard(t)
             if k in "go" or synced:
                 epoch.append(ops[-1])
             seq += rng.choice([1, 1, 1, 1, 2, 3, rng.randint(1, 70)])
@@ -353,8 +358,6 @@ def gen_endp(rng, maxlen=26):
             d = rng.choice(old)                              # a datagram of an EARLIER life arrives again (Appendix B.1.2 on:
             if d[0] in "eE":                                 # it must never be accepted; its Echo value is stale by now)
                 d = "w" + d[1:]
-            if d[0] == "w" and not synced:
-                dirty.add(int(d[1:].split(".")[0]))
             ops.append(d)
         elif c < 0.34 and epoch:
             ops.append(rng.choice(epoch))                    # the network delivers a datagram of this life again
@@ -415,6 +418,16 @@ def generate(ctx, escalate=False):
         out.append(gen_nonces(rng))
     for i in range(n // 3):
         out.append(gen_endp(rng))
+    b2 = ["b2c " + " ".join(e) for k in (1, 2, 3) for e in itertools.product(["z", "i", "u", "e", "f0", "f3", "f8"], repeat=k)]
+    b2 += [gen_b2c(rng) for _ in range(n // 12)]
+    ctx.cov["b2c"] = ("Appendix B.2 client response path, responses that do not verify: all sequences of length <= 3 over 7 kid "
+                      "context forms + %d random (%d cases)" % (n // 12, len(b2)))
+    out += b2
+    b2 = ["b2s " + " ".join(e) for k in (1, 2, 3) for e in itertools.product(["R", "x0", "x3", "x8", "X8", "X12"], repeat=k)]
+    b2 += [gen_b2s(rng) for _ in range(n // 12)]
+    ctx.cov["b2s"] = ("Appendix B.2 server request path, requests that do not verify (step 2 and, after the set-up R, step 4): all "
+                      "sequences of length <= 3 over 6 symbols + %d random (%d cases)" % (n // 12, len(b2)))
+    out += b2
     nx = exhaustive_nonces(4 if thorough else 3)
     ne = exhaustive_endp(4 if thorough else 3)
     ctx.cov["endp"] = ("whole sender side (tokens shared by both roles, Echo, save callback, crash/restart): all op sequences of "
@@ -757,8 +770,102 @@ def judge_endp(ctx, c):
     return None
 
 
+B2_ID1 = "1122334455667788"
+
+
+def judge_b2c(ctx, c):
+    """Appendix B.2, client side: every event of a `b2c` line is a response that does NOT verify.  Property on the
+    implementation's own output: each is dropped and leaves b_2_step, the ID Context, the Sender Key and the sender
+    sequence number exactly as they were (STEP_1, ID1 of the configuration, the key derived from ID1)."""
+    i, m = c["impl"] or "", c["model"] or ""
+    if i.startswith("crash"):
+        return ("spec", "the implementation aborted: " + i[:200])
+    evs = c["input"].split()[1:]
+    toks = i.split()
+    if len(toks) != len(evs):
+        return ("tie", "harness printed %d results for %d events: %s" % (len(toks), len(evs), i[:120]))
+    first, stripped = None, []
+    for k, (ev, t) in enumerate(zip(evs, toks)):
+        if t in ("bad-ev", "fail"):
+            stripped.append(t)
+            continue
+        try:
+            verdict, st = t.split(":")
+            step, idc, key, seq = st.split(",")
+        except ValueError:
+            return ("tie", "unexpected harness token %r" % t)
+        if verdict != "drop":
+            return ("spec", "event %d (%s): a response that does not verify was not dropped (%s)" % (k + 1, ev, verdict))
+        if step != "1" or idc != B2_ID1:
+            return ("spec", "event %d (%s): a forged response changed the Appendix B.2 state of the client: b_2_step %s, "
+                            "ID Context %s (was STEP_1, %s)" % (k + 1, ev, step, idc, B2_ID1))
+        if first is None:
+            first = (key, seq)
+        elif (key, seq) != first:
+            return ("spec", "event %d (%s): a forged response changed the Sender Key / sequence number: %s,%s -> %s,%s"
+                    % (k + 1, ev, first[0], first[1], key, seq))
+        stripped.append("%s:%s,%s" % (verdict, step, idc))
+    if " ".join(stripped) != m:
+        return ("tie", "implementation %s but model M says %s" % (" ".join(stripped)[:170], m[:170]))
+    return None
+
+
+def judge_b2s(ctx, c):
+    """Appendix B.2, server side: every x/X event of a `b2s` line is a request that does NOT verify.  Property on the
+    implementation's own output: it is rejected and b_2_step, oscore_r2 and the security contexts of the coap_context_t
+    (number, ID Context of each) are exactly as after the previous event (`R` is a set-up step, not a message)."""
+    i, m = c["impl"] or "", c["model"] or ""
+    if i.startswith("crash"):
+        return ("spec", "the implementation aborted: " + i[:200])
+    evs = c["input"].split()[1:]
+    toks = i.split()
+    if len(toks) != len(evs):
+        return ("tie", "harness printed %d results for %d events: %s" % (len(toks), len(evs), i[:120]))
+    prev = "0,0,1,-"
+    for k, (ev, t) in enumerate(zip(evs, toks)):
+        if t in ("bad-ev", "fail"):
+            continue
+        if ":" not in t:
+            return ("tie", "unexpected harness token %r" % t)
+        verdict, st = t.split(":", 1)
+        if ev == "R":
+            prev = st
+            continue
+        if verdict == "acc":
+            return ("spec", "event %d (%s): a request that does not verify was accepted" % (k + 1, ev))
+        if st != prev:
+            return ("spec", "event %d (%s): a forged request changed the Appendix B.2 state of the server "
+                            "(b_2_step, oscore_r2 set, number of security contexts, their ID Contexts): %s -> %s" % (k + 1, ev, prev, st))
+    if i != m:
+        return ("tie", "implementation %s but model M says %s" % (i[:170], m[:170]))
+    return None
+
+
+def gen_b2s(rng):
+    n = rng.randint(1, 8)
+    evs = []
+    for _ in range(n):
+        c = rng.random()
+        evs.append("R" if c < 0.2 else rng.choice("xX") + str(rng.choice([0, 1, 3, 8, 8, 9, 16, 23, rng.randint(0, 23)])))
+    return "b2s " + " ".join(evs)
+
+
+def gen_b2c(rng):
+    n = rng.randint(1, 8)
+    evs = []
+    for _ in range(n):
+        c = rng.random()
+        evs.append("z" if c < 0.15 else "i" if c < 0.3 else "u" if c < 0.4 else "e" if c < 0.5
+                   else "f%d" % rng.choice([0, 1, 2, 7, 8, 8, 9, 16, 23, rng.randint(0, 23)]))
+    return "b2c " + " ".join(evs)
+
+
 def judge(ctx, c):
     op = c["input"].split()[0]
+    if op == "b2c":
+        return judge_b2c(ctx, c)
+    if op == "b2s":
+        return judge_b2s(ctx, c)
     if op == "endp":
         return judge_endp(ctx, c)
     if op == "nonces":
@@ -788,6 +895,10 @@ def nontrivial(c):
         return any(t[0].isdigit() for t in i.split())
     if op in ("nonces", "endp"):
         return "/" in i
+    if op == "b2c":
+        return "drop:" in i
+    if op == "b2s":
+        return "rej" in i
     return i.startswith("1:") or i.startswith("0:")
 
 
@@ -844,8 +955,8 @@ def shrink(ctx, case):
     from vlib.runner import diff_side
     import props.C15 as me
     w = case["input"].split()
-    hdr = 6 if w[0] == "replayst" else 2 if w[0] == "nonces" else 5 if w[0] == "endp" else 3
-    if w[0] not in ("replay", "replayst", "sender", "nonces", "endp") or len(w) < hdr + 2:
+    hdr = 6 if w[0] == "replayst" else 2 if w[0] == "nonces" else 5 if w[0] == "endp" else 1 if w[0] in ("b2c", "b2s") else 3
+    if w[0] not in ("replay", "replayst", "sender", "nonces", "endp", "b2c", "b2s") or len(w) < hdr + 2:
         return case
     best, evs = case, w[hdr:]
     changed, rounds = True, 0
